@@ -138,6 +138,116 @@ def scalarised_wallprofile(src):
 
 
 # ---------------------------------------------------------------------------------------
+# 1b. _updateGrid for a fixed number of fields: np.max / np.min over the field axis become
+#     max / min of the per-field expressions; the arguments handed to
+#     grid.changePositionFalloffScale are the result
+
+UG_ATTRS = ["meanFreePathScale", "includeOffEq"]
+UG_EXT = [pyrx.Pattern("self.grid.smoothing", "smoothing", "R"),
+          pyrx.Pattern("self.grid.ratioPointsWall", "ratioPointsWall", "R")]
+
+
+class _PerField(ast.NodeTransformer):
+    def __init__(self, arrays, i):
+        self.arrays, self.i = arrays, i
+
+    def visit_Name(self, node):
+        if node.id in self.arrays:
+            return ast.copy_location(ast.Name("%s%d" % (self.arrays[node.id], self.i),
+                                              ast.Load()), node)
+        return node
+
+
+class _Reduce(ast.NodeTransformer):
+    """np.max(E) / np.min(E) over arrays of per-field values -> nested max / min"""
+
+    def __init__(self, arrays, nf):
+        self.arrays, self.nf = arrays, nf
+
+    def visit_Call(self, node):
+        f = ast.unparse(node.func)
+        if f in ("np.max", "np.min", "np.amax", "np.amin") and len(node.args) == 1 \
+                and not node.keywords:
+            used = {n.id for n in ast.walk(node.args[0]) if isinstance(n, ast.Name)}
+            if not used & set(self.arrays):
+                raise TranslateError("%s over a non-field expression (line %d)" % (
+                    f, node.lineno))
+            parts = [_PerField(self.arrays, i).visit(copy.deepcopy(node.args[0]))
+                     for i in range(self.nf)]
+            acc = parts[0]
+            for p in parts[1:]:
+                acc = ast.Call(func=ast.Name("max" if "max" in f else "min", ast.Load()),
+                               args=[acc, p], keywords=[])
+            return ast.copy_location(acc, node)
+        self.generic_visit(node)
+        return node
+
+
+def scalarised_updategrid(src, nf):
+    tree = ast.parse(src)
+    fn = None
+    for n in tree.body:
+        if isinstance(n, ast.ClassDef) and n.name == "EOM":
+            for f in n.body:
+                if isinstance(f, ast.FunctionDef) and f.name == "_updateGrid":
+                    fn = f
+    if fn is None:
+        raise TranslateError("EOM._updateGrid not found")
+    if [a.arg for a in fn.args.args] != ["self", "wallParams", "velocityMid"]:
+        raise TranslateError("_updateGrid parameters changed")
+    span = (fn.lineno, fn.end_lineno, pyrx._sha(ast.unparse(fn)))
+    arrays = {}
+    body = []
+    stmts = [st for st in fn.body]
+    for k, st in enumerate(stmts):
+        if isinstance(st, ast.Assign) and len(st.targets) == 1 and \
+                isinstance(st.targets[0], ast.Name) and \
+                ast.unparse(st.value) in ("wallParams.widths", "wallParams.offsets"):
+            arrays[st.targets[0].id] = "width" if st.value.attr == "widths" else "offset"
+            continue
+        if isinstance(st, ast.Assign) and len(st.targets) == 1 and \
+                isinstance(st.targets[0], ast.Name) and st.targets[0].id in arrays:
+            raise TranslateError("%s reassigned in _updateGrid" % st.targets[0].id)
+        if k == len(stmts) - 1:
+            if not (isinstance(st, ast.Expr) and isinstance(st.value, ast.Call) and
+                    ast.unparse(st.value.func) == "self.grid.changePositionFalloffScale"
+                    and len(st.value.args) == 4 and not st.value.keywords):
+                raise TranslateError("_updateGrid does not end with "
+                                     "grid.changePositionFalloffScale(4 arguments)")
+            st = ast.Return(value=ast.Tuple(elts=list(st.value.args), ctx=ast.Load()))
+        st = _Reduce(arrays, nf).visit(copy.deepcopy(st))
+        for n in ast.walk(st):
+            if isinstance(n, ast.Name) and (n.id in arrays or n.id == "wallParams"):
+                raise TranslateError("field array %s used outside np.max/np.min in "
+                                     "_updateGrid (line %d)" % (n.id, n.lineno))
+        body.append(st)
+    args = ["self"]
+    for i in range(nf):
+        args += ["width%d" % i, "offset%d" % i]
+    args.append("velocityMid")
+    fn2 = ast.FunctionDef(name="_updateGrid", args=ast.arguments(
+        posonlyargs=[], args=[ast.arg(a) for a in args], kwonlyargs=[], kw_defaults=[],
+        defaults=[]), body=body, decorator_list=[])
+    cls = ast.ClassDef(name="EOM", bases=[], keywords=[], body=[fn2], decorator_list=[])
+    mod = ast.Module(body=[cls], type_ignores=[])
+    ast.fix_missing_locations(mod)
+    return ast.unparse(mod), span
+
+
+def updategrid_defs(src):
+    out, span, hdr = [], None, None
+    for nf in (1, 2):
+        ssrc, span = scalarised_updategrid(src, nf)
+        tr = pyrx.ClassTranslator(ssrc, "EOM", UG_ATTRS, UG_EXT, [], state=False,
+                                  prefix="ug_")
+        d = tr.method("_updateGrid", coq_name="updateGrid%d" % nf)
+        if hdr is None:
+            hdr = tr.header()
+        out.append(d)
+    return hdr + "\n" + "\n".join(out), span
+
+
+# ---------------------------------------------------------------------------------------
 # 2. the slice of _intermediatePressureResults that makes the pressure
 
 GRID_READERS = {"getCompactificationDerivatives", "getCompactCoordinates",
@@ -507,6 +617,7 @@ def generate(src):
     ssrc, span = scalarised_wallprofile(src)
     tr = pyrx.ClassTranslator(ssrc, "EOM", [], [], [], state=False)
     body = tr.method("wallProfile")
+    ug_text, ug_span = updategrid_defs(src)
     sl = PressureSlice(src)
     text = "\n".join([
         pyrx.COQ_PRELUDE,
@@ -517,9 +628,13 @@ def generate(src):
         tr.header(),
         body,
         "",
+        "(* EOM._updateGrid for one and for two fields: the four arguments handed to",
+        "   grid.changePositionFalloffScale (tailInside, tailOutside, wallThickness, wallCenter) *)",
+        ug_text,
+        "",
         "(* def-use slice of EOM._intermediatePressureResults that yields the pressure *)",
         sl.coq(), ""])
-    spans = {"wallProfile": span,
+    spans = {"wallProfile": span, "updateGrid1": ug_span, "updateGrid2": ug_span,
              "pressure_integrand": (sl.fn.lineno, sl.fn.end_lineno,
                                     pyrx._sha(ast.unparse(sl.fn)))}
     info = dict(spans=spans, result=sl.result, wall_versions=sl.wall_versions,
